@@ -16,7 +16,7 @@ CHECKS = {
   note="Trusted: engine semantics (validated by native witness replays), solver, native compiler. Portions are concrete (linear arithmetic).",
   ref="DESIGN §5 C03"),
  "C08": dict(
-  text="Differential bounded model checking: native compiler + symbolic VM against a ~250-line reference semantics (RefSem) evaluated on the same symbolic inputs; per (source,destination,asset) the summed amounts are proved equal on every path, outcome classes (ok/insufficient/invalid/vars refused) must agree, and Compile must accept exactly the programs the static rules of the language accept. A second differential (ZZ_C08X) runs 12 hand-read programs over the rest of the grammar (save, metadata statements, arithmetic — also over portioned sources —, typed variables, balance(), meta()) and checks that seven texts the language rejects (characters no token has, unterminated block, type error) are refused; ZZ_C08Cache runs command.Compiler.Compile (interpreted; sha256 = injective token appended in place, gcache = bounded LFU model) with cache sizes 1/2/1024 and two concurrent texts under every schedule within the pre-emption budget, including pre-emptions between nested calls of one statement.",
+  text="Differential bounded model checking: native compiler + symbolic VM against a ~250-line reference semantics (RefSem) evaluated on the same symbolic inputs; per (source,destination,asset) the summed amounts are proved equal on every path, outcome classes (ok/insufficient/invalid/vars refused) must agree, and Compile must accept exactly the programs the static rules of the language accept. A second differential (ZZ_C08X) runs 12 hand-read programs over the rest of the grammar (save, metadata statements, arithmetic — also over portioned sources —, typed variables, balance(), meta()) with amounts written with leading zeros, and checks that seven texts the language rejects (characters no token has, unterminated block, type error) are refused; ZZ_C08Cache runs command.Compiler.Compile (interpreted; sha256 = injective token appended in place, gcache = bounded LFU model) with cache sizes 1/2/1024 and two concurrent texts under every schedule within the pre-emption budget, including pre-emptions between nested calls of one statement.",
   note="Trusted: RefSem (harness/internal/machine/vm/zz_ast.go), engine, solver. Zero-amount postings and splitting of adjacent postings are not compared.",
   ref="DESIGN §5 C08"),
  "C12": dict(
@@ -80,7 +80,7 @@ CHECKS = {
   note="The inputs are schedules and cancellation moments (decisions); the solver's part is feasibility. Counterexample schedules are replayed natively by the schedule controller.",
   ref="DESIGN §5 C15"),
  "C17": dict(
-  text="Bounded symbolic model checking of bunpaginate over an abstract ordered table: for collections of 0..4 rows with arbitrary increasing ids, every page size 1..n+1 and both orders, UsingColumn is followed through `next` until hasMore is false (each row exactly once, in order) and back through `previous` (the page before; from there `next` must lead back and `previous` one page further), every cursor being decoded again with UnmarshalCursor; UsingOffset's one-step law (page contents count, hasMore, next/previous offsets) is decided for arbitrary offset < 2^31 (bun keeps OFFSET as int32) and page size <= MaxPageSize; every filter tree of depth <= 2 over {$match,$lt,$and,$or,$not} put into a cursor is decoded to a builder rendering the same clause; a query holding a filter value of 1..4 arbitrary printable bytes is written by EncodeCursor and read back by UnmarshalCursor (base64 alphabet and padding modelled bit-exactly); cursors of the transactions/accounts/logs listings with filters are encoded, decoded and must build the same WHERE clause.",
+  text="Bounded symbolic model checking of bunpaginate over an abstract ordered table: for collections of 0..4 rows with arbitrary increasing ids, every page size 1..n+1 and both orders, UsingColumn is followed through `next` until hasMore is false (each row exactly once, in order) and back through `previous` (the page before; from there `next` must lead back and `previous` one page further), every cursor being decoded again with UnmarshalCursor; UsingOffset's one-step law (page contents count, hasMore, next/previous offsets) is decided for arbitrary offset < 2^31 (bun keeps OFFSET as int32) and page size <= 1000 (the v1 maximum); full offset walks over 105 and 230 rows with page size arbitrary in 90..1000; every filter tree of depth <= 2 over {$match,$lt,$and,$or,$not} put into a cursor is decoded to a builder rendering the same clause; a query holding a filter value of 1..4 arbitrary printable bytes is written by EncodeCursor and read back by UnmarshalCursor (base64 alphabet and padding modelled bit-exactly); cursors of the transactions/accounts/logs listings with filters are encoded, decoded and must build the same WHERE clause.",
   note="*bun.SelectQuery is modelled as an ordered relation (Where/OrderExpr/Offset/Limit/Scan); bun's SQL generation and PostgreSQL are outside the claim; natively the replays run against a fake database/sql driver that parses the statements bun emits. reflect is answered from go/types; JSON/base64 are models.",
   ref="DESIGN §5 C17"),
 }
